@@ -89,7 +89,11 @@ func (e *Exec) lenOf(st *State, t types.Type, v Value) Term {
 }
 
 func (e *Exec) closeChan(st *State, c *ssa.CallCommon, args []Value, where string) Value {
-	e.unsupported("close of channel at %s", where)
+	ch := e.asTerm(st, args[0], c.Args[0].Type())
+	e.oblige(st, "safe", "safe.close@nil", tNot(tEq(ch, tInt(0))), where)
+	e.oblige(st, "safe", "safe.close@closed", tNot(e.chanClosed(st, ch)), where)
+	arr := e.heapComp(st, "G.ghost_closed", SInt, arraySort(SInt, SBool))
+	e.setHeap(st, "G.ghost_closed", tStore(arr, ch, tTrue))
 	return &Tuple{}
 }
 
